@@ -63,12 +63,15 @@ def run_property(pid, tier, only=None):
             continue
         for k in stats_all:
             stats_all[k] |= E.stats[k]
-        all_obs += E.obs
+        all_obs += [o for o in E.obs if o.info.get('tags') is None or pid in o.info['tags']]
     results = engine.discharge(all_obs, timeout_ms=timeout_ms, seed=seed)
     # group by obligation name
     groups = {}
     canaries = {}
     for ob, r in zip(all_obs, results):
+        tags = ob.info.get('tags')
+        if tags is not None and pid not in tags:
+            continue            # clause serves other properties only
         if ob.kind == 'canary':
             canaries.setdefault(ob.name, []).append(r)
         else:
